@@ -4,7 +4,7 @@
 set -u
 export GOFLAGS=-mod=mod GOPROXY=off GOSUMDB=off GOTOOLCHAIN=local
 id=$1; tag=${2:-}; name=$id${tag:+-$tag}
-wt=/tmp/wt-$id; sd=/tmp/seed-$id; out=/verif/seeded/$name
+wt=/tmp/wt-$id$tag; sd=/tmp/seed-$id$tag; out=/verif/seeded/$name
 [ -s $sd/patch.diff ] || { echo "no patch"; exit 2; }
 mkdir -p $out
 cd $wt || exit 2
